@@ -18,40 +18,79 @@ VARIABLES crashed     \* the process has been killed once
 cvars == <<fvars, crashed>>
 
 OneFail(j) == [x \in 1..24 |-> x = j]
+NoFail == [x \in 1..24 |-> FALSE]
+
+(***************************************************************************)
+(* The state a kill immediately before effect j leaves. For the effects    *)
+(* whose failure ends the operation this is what FlwF's failure at j        *)
+(* leaves; the two link effects (their failure is ignored by the code, the  *)
+(* operation goes on) are stopped at explicitly: everything in front of the *)
+(* open is done, the link is untouched (j = p) or removed (j = p + 1 of     *)
+(* unlink, symlink).  hit: the operation has an effect number j.            *)
+(***************************************************************************)
+KillInit(c, d, f, t, j, l) ==
+    LET nl   == Len(LkFx(l))
+        p    == IF c.rot /\ c.naming \in {"Num", "Ts"} /\ ~c.append THEN 2 ELSE 1
+        full == InitializeL(c, d, f, t, NoFail, l)
+    IN IF nl > 0 /\ HasOpen(full.fx) /\ j \in p..(p + nl - 1)
+       THEN LET R0 == InitializeF(c, d, f, t, OneFail(p)) IN
+            [hit |-> TRUE, d |-> R0.d, f |-> R0.f, legit |-> R0.legit, lk |-> IF j = p THEN l ELSE [l EXCEPT !.has = FALSE]]
+       ELSE LET R == InitializeL(c, d, f, t, OneFail(j), l) IN
+            [hit |-> j <= full.used, d |-> R.d, f |-> R.f, legit |-> R.legit, lk |-> R.lk]
+
+KillRot(c, d, fa, wa, t, j, j0, l) ==
+    LET nl   == Len(LkFx(l))
+        p    == j0 + (IF c.naming \in {"Num", "Ts"} THEN 2 ELSE 1)
+        full == RotateL(c, d, fa, wa, t, NoFail, j0, l)
+    IN IF nl > 0 /\ HasOpen(full.fx) /\ j \in p..(p + nl - 1)
+       THEN LET R0 == RotateF(c, d, fa, wa, t, OneFail(p), j0) IN
+            [hit |-> TRUE, d |-> R0.d, f |-> R0.f, lk |-> IF j = p THEN l ELSE [l EXCEPT !.has = FALSE]]
+       ELSE LET R == RotateL(c, d, fa, wa, t, OneFail(j), j0, l) IN
+            [hit |-> j > j0 /\ j <= full.used, d |-> R.d, f |-> R.f, lk |-> R.lk]
 
 CInit == FInit /\ crashed = FALSE /\ plan.from = 0
 
 \* kill immediately before effect j of a log call: the record is in flight, its call never returns
 CrashInWrite(len, j) ==
     /\ ~crashed /\ w.st \in {"init", "act"} /\ Len(logged) < MaxRecs
-    /\ LET FL == OneFail(j)
-           id == Len(logged) + 1
-           i0 == IF w.st = "init" THEN InitializeL(cfg, dir, files, clk, FL, lnk)
+    /\ LET id == Len(logged) + 1
+           ki == IF w.st = "init" THEN KillInit(cfg, dir, files, clk, j, lnk) ELSE [hit |-> FALSE, legit |-> {}]
+           i0 == IF w.st = "init" THEN InitializeL(cfg, dir, files, clk, NoFail, lnk)
                  ELSE [ok |-> TRUE, d |-> dir, f |-> files, w |-> w, legit |-> {}, used |-> 0, fx |-> <<>>, lk |-> lnk]
-           due == i0.ok /\ cfg.rot /\ RotationNecessary(cfg, i0.w, clk)
-           r0 == IF due THEN RotateL(cfg, i0.d, i0.f, i0.w, clk, FL, i0.used, i0.lk)
-                 ELSE [ok |-> i0.ok, d |-> i0.d, f |-> i0.f, w |-> i0.w, used |-> i0.used, fx |-> <<>>, lk |-> i0.lk]
-           n == IF i0.ok THEN r0.used + 1 ELSE i0.used          \* effects of the call up to and incl. the failing one
-       IN /\ j <= n /\ (i0.ok => (~r0.ok \/ j = r0.used + 1))    \* effect j exists in this call
-          /\ dir' = r0.d /\ files' = r0.f /\ lnk' = r0.lk
-          /\ logged' = Append(logged, len) /\ wt' = Append(wt, clk)
-          /\ lostw' = lostw \cup {id}
-          /\ gone' = gone \cup (AllIdsIn(dir, files) \ AllIdsIn(r0.d, r0.f))
-          /\ okgone' = okgone \cup i0.legit \cup (IF cfg.clean THEN AllIdsIn(dir, files) \ AllIdsIn(r0.d, r0.f) ELSE {})
+           due == cfg.rot /\ RotationNecessary(cfg, i0.w, clk)
+           kr == IF due THEN KillRot(cfg, i0.d, i0.f, i0.w, clk, j, i0.used, i0.lk) ELSE [hit |-> FALSE]
+           r0 == IF due THEN RotateL(cfg, i0.d, i0.f, i0.w, clk, NoFail, i0.used, i0.lk)
+                 ELSE [ok |-> TRUE, d |-> i0.d, f |-> i0.f, w |-> i0.w, used |-> i0.used, fx |-> <<>>, lk |-> i0.lk]
+           res == IF ki.hit THEN ki
+                  ELSE IF kr.hit THEN kr
+                  ELSE [hit |-> j = r0.used + 1, d |-> r0.d, f |-> r0.f, lk |-> r0.lk]    \* before the write itself
+           legit == IF ki.hit THEN ki.legit ELSE i0.legit
+       IN /\ res.hit
+          /\ dir' = res.d /\ files' = res.f /\ lnk' = res.lk
+          \* (the record of the killed call takes its number with it)
+          /\ logged' = Append(logged, len) /\ wt' = Append(wt, clk) /\ lostw' = lostw \cup {id}
+          /\ gone' = gone \cup (AllIdsIn(dir, files) \ AllIdsIn(res.d, res.f))
+          /\ okgone' = okgone \cup legit \cup (IF cfg.clean THEN AllIdsIn(dir, files) \ AllIdsIn(res.d, res.f) ELSE {})
     /\ w' = NoWriter /\ crashed' = TRUE /\ rep' = <<>> /\ lastfx' = <<>> /\ recov' = 0
     /\ UNCHANGED <<clk, cfg, runs, trigs, advs, forced, extgone, exts, moved, olddirs, sws, needReopen, hist, plan, nfx>>
 
 \* kill immediately before effect j of a forced rotation
 CrashInTrigger(j) ==
     /\ ~crashed /\ w.st = "act" /\ cfg.rot
-    /\ LET r0 == RotateL(cfg, dir, files, w, clk, OneFail(j), 0, lnk) IN
-       /\ ~r0.ok /\ r0.used = j
+    /\ LET r0 == KillRot(cfg, dir, files, w, clk, j, 0, lnk) IN
+       /\ r0.hit
        /\ dir' = r0.d /\ files' = r0.f /\ lnk' = r0.lk
        /\ gone' = gone \cup (AllIdsIn(dir, FlushInto(files, w)) \ AllIdsIn(r0.d, r0.f))
        /\ okgone' = okgone \cup (IF cfg.clean THEN AllIdsIn(dir, FlushInto(files, w)) \ AllIdsIn(r0.d, r0.f) ELSE {})
     /\ w' = NoWriter /\ crashed' = TRUE /\ rep' = <<>> /\ lastfx' = <<>> /\ recov' = 0
     /\ UNCHANGED <<clk, cfg, logged, wt, runs, trigs, advs, forced, extgone, exts, moved, olddirs, sws, needReopen, hist,
                    plan, nfx, lostw>>
+
+\* kill in any other call (start, flush, shutdown) or between two calls: the writer and its buffer are gone
+CrashOther ==
+    /\ ~crashed /\ w' = NoWriter /\ crashed' = TRUE /\ rep' = <<>> /\ lastfx' = <<>> /\ recov' = 0
+    /\ UNCHANGED <<dir, files, clk, cfg, logged, wt, runs, trigs, advs, gone, okgone, forced, extgone, exts, moved, olddirs, sws,
+                   needReopen, hist, plan, nfx, lostw, lnk>>
 
 Keep(next) == next /\ UNCHANGED crashed
 
@@ -61,6 +100,7 @@ CNext == \/ Keep(\E ap \in BOOLEAN : StartF(ap))
          \/ Keep(\E dt \in Dts : AdvanceF(dt))
          \/ \E len \in Lens : \E j \in 1..12 : CrashInWrite(len, j)
          \/ \E j \in 1..12 : CrashInTrigger(j)
+         \/ CrashOther
 CSpec == CInit /\ [][CNext]_cvars
 
 \* direct mode: every record whose log call had returned is in the files, in order (gone = documented truncation
